@@ -211,8 +211,8 @@ fn judge_error_packet(run: &Run, ctx: &str, bytes: &[u8], offending: &[u8], expe
 fn part_a(run: &Run, ev: &vpc::Counters, distinct: &vpc::Distinct) {
     let cfgs = header_configs(run.tier);
     let lens: Vec<usize> = match run.tier {
-        Tier::Quick => (0..=1400).step_by(1).filter(|l| *l < 40 || *l % 97 == 0 || (150..=1240).contains(l) && (*l % 4 != 1 || *l > 1100)).chain([1500, 9216]).collect(),
-        Tier::Thorough => (0..=1400).chain([1500, 9216]).collect(),
+        // every offending length in both tiers (the whole part takes about a second)
+        Tier::Quick | Tier::Thorough => (0..=1400).chain([1500, 9216]).collect(),
     };
     let sizes: std::collections::BTreeSet<usize> = cfgs
         .iter()
@@ -478,8 +478,7 @@ impl Pocket {
 fn part_b(run: &Run, ev: &vpc::Counters, distinct: &vpc::Distinct) {
     // snap gateway: rejected datagrams of every length
     let lens: Vec<usize> = match run.tier {
-        Tier::Quick => (0..=1400).filter(|l| *l < 80 || *l % 53 == 0 || (1150..=1240).contains(l)).chain([1500, 4000, 9216]).collect(),
-        Tier::Thorough => (0..=1400).chain([1500, 4000, 9216]).collect(),
+        Tier::Quick | Tier::Thorough => (0..=1400).chain([1500, 4000, 9216]).collect(),
     };
     let peer: IpAddr = "10.0.2.1".parse().unwrap();
     let local = ScionHostAddr::V4(Ipv4Addr::new(10, 0, 0, 9));
@@ -935,7 +934,7 @@ pub fn run(args: &vpc::Args) -> ! {
             "distinct_nontrivial": distinct.len(),
             "rule": "cases are generated from size/shape-determining fields: (a) 5 error kinds x offending lengths x reply header shapes; (b) builders x datagram/packet sizes; (c) echo requests x ids x data lengths x path shapes x positions; (d) 256 type bytes x 3 codes x every truncation x checksum x error-quoting-error x 4 handlers; (e) all sequences with repetition over 8 packet kinds. distinct_nontrivial counts distinct (part, encoded length / type / shape / sequence) classes that reached an oracle (a reply judged or a silent verdict checked)",
             "exhaustive": true,
-            "bound": match tier { Tier::Quick => "quick: reduced length/shape series, socket sequences <= 3", Tier::Thorough => "thorough: every offending length 0..=1400, all 1-seg hop counts 1..=63, all <=3x3 shapes and positions, socket sequences <= 4" },
+            "bound": match tier { Tier::Quick => "quick: every offending length 0..=1400 (+1500, 9216), reduced reply-header / echo shape series, socket sequences <= 3", Tier::Thorough => "thorough: every offending length 0..=1400, all 1-seg hop counts 1..=63, all <=3x3 shapes and positions, socket sequences <= 4" },
             "parts": timing,
         }),
         &[
